@@ -5,7 +5,7 @@
 (* that may reject.                                                           *)
 EXTENDS Ideal, TLC
 
-CONSTANTS LocalKeys, SecretKeys, PublicKeys, ClaimsSet, FooterSet, AadSet, Vers, MaxTokens, MaxBlobs, Passwords, MaxDraws, MaxGen
+CONSTANTS MCPurposes, LocalKeys, SecretKeys, PublicKeys, ClaimsSet, FooterSet, AadSet, Vers, MaxTokens, MaxBlobs, Passwords, MaxDraws, MaxGen
 
 AllKeys == LocalKeys \cup SecretKeys \cup PublicKeys
 Wires == 1..(MaxTokens + 1)            \* one more than can be emitted: a never-sealed (forged) wire
@@ -30,7 +30,7 @@ MCInit == Init
 MCNext ==
   \/ \E sk \in SecretKeys : LearnPair(sk, PubKeyFor(sk))
   \/ /\ Cardinality(tokens) < MaxTokens
-     /\ \E ver \in Vers, p \in Purposes, c \in ClaimsSet, f \in FooterSet, a \in AadSet :
+     /\ \E ver \in Vers, p \in MCPurposes, c \in ClaimsSet, f \in FooterSet, a \in AadSet :
           \E k \in (IF p = "local" THEN LocalKeys ELSE SecretKeys) : SealBegin(ver, p, k, c, f, a)
   \/ \E ok \in BOOLEAN : (op.kind \in {"seal", "wrap", "gen"} /\ Len(op.drawn) < MaxDraws /\ Draw(ok, 200 + Len(op.drawn))) \/ EncodeFooter(ok) \/ EncodeClaims(ok)
   \/ \E ver \in Vers, kd \in {"local", "secret"} : Cardinality({u \in used : u >= 300}) < MaxGen /\ GenBegin(ver, kd)
@@ -38,7 +38,7 @@ MCNext ==
   \/ \E e \in ErrClasses : GenFail(e)
   \/ Emit(FreshWire, {FreshWire})
   \/ \E e \in ErrClasses : SealFail(e)
-  \/ \E ver \in Vers, p \in Purposes, w \in Wires, f \in FooterSet, a \in AadSet :
+  \/ \E ver \in Vers, p \in MCPurposes, w \in Wires, f \in FooterSet, a \in AadSet :
         \E k \in (IF p = "local" THEN LocalKeys ELSE PublicKeys) : UnsealBegin(ver, p, w, f, k, a)
   \/ \E c \in ClaimsSet, ok \in BOOLEAN : Decode(c, ok) \/ Validate(c, ok)
   \/ \E c \in ClaimsSet, f \in FooterSet : Release(c, f)
